@@ -623,7 +623,15 @@ def wf_hyps(ast, want, out):
         scope = owned_of(plans[0])
     else:
         scope = None
+    el_seen = 0
     for a, so in zip(args, argsorts):
+        if so == "EL" and h in ("hashjoin", "mergejoin") and len(plans) == 2:
+            # the key lists of a hash / merge join are resolved against ONE input each
+            side = plans[el_seen] if el_seen < 2 else plans[-1]
+            el_seen += 1
+            out.append("(∀ e ∈ %s, ReadsWithin e %s)" % (plan_emit(a, "EL"), owned_of(side)))
+            wf_hyps(a, so, out)
+            continue
         if so == "B" and scope:
             # every leaf of the condition reads only what the inputs provide (well-formedness is
             # syntactic: it holds of each sub-expression, not just of the composite's value)
